@@ -346,6 +346,7 @@ def render_blt(e):
         else: out.extend('[withdrawn %d]' % c for c in wd)
     if e['und']: out.append('[undeclared %s]' % ' '.join(map(str, e['und'])))
     if e.get('tie'): out.append('[tie %s]' % ' '.join(map(str, e['tie'])))
+    for grp in e.get('droop', []): out.append('[droop %s]' % ' '.join(grp))      # options embedded in the ballot file
     for m, r in e['lines']:
         out.append('%d %s 0' % (m, ' '.join(map(str, r))))
     for m, ranks in e.get('eq', []):
